@@ -199,17 +199,35 @@ def refsubst(ctx, crate, E):
     S = Sym(E, fa)
     ok = False
     why = "no features.get(idx) for a Reference found"
-    for b, t in fa.calls():
-        if "map_or" not in _names(t) or len(t["args"]) < 2:
+    # the expansion may be written in a closure of rewrite (`rule.iter().map(|r| ..).collect()`):
+    # there `features` is a captured variable
+    caps = {}
+    for b, i, s0 in fa.stmts():
+        rv = s0.get("rv")
+        if rv and rv["k"] == "agg" and rv.get("agg") == "closure":
+            caps[rv["closure"]] = [S.operand(x) for x in rv["ops"]]
+    for q in [p] + sorted(caps):
+        if q not in crate.fns or not crate.fns[q].body:
             continue
-        recv = S.operand(t["args"][0])
-        dflt = op_const(t["args"][1])
-        o = fa.origin(t["args"][1])
-        star = (dflt or {}).get("str") == "*" or (o[0] == "const" and o[1].get("str") == "*")
-        txt = show(recv)
-        if recv[0] == "ap" and recv[1].root == ("arg", 2) and "[]" in recv[1].proj:
-            ok = star
-            why = "features.get(idx).map_or(%r, ..)" % ((dflt or {}).get("str") or (o[1].get("str") if o[0] == "const" else "?"))
+        qa = E.fa(q)
+        QS = Sym(E, qa)
+        for b, t in qa.calls():
+            if "map_or" not in _names(t) or len(t["args"]) < 2:
+                continue
+            recv = QS.operand(t["args"][0])
+            dflt = op_const(t["args"][1])
+            o = qa.origin(t["args"][1])
+            star = (dflt or {}).get("str") == "*" or (o[0] == "const" and o[1].get("str") == "*")
+            if recv[0] != "ap" or "[]" not in recv[1].proj:
+                continue
+            root = recv[1].root
+            if q != p and root == ("arg", 1) and str(recv[1].proj[0]).startswith("#"):
+                k = int(str(recv[1].proj[0])[1:])
+                c = caps[q][k] if k < len(caps[q]) else None
+                root = c[1].root if c and c[0] == "ap" and not c[1].proj else None
+            if root == ("arg", 2):
+                ok = star
+                why = "features.get(idx).map_or(%r, ..)" % ((dflt or {}).get("str") or (o[1].get("str") if o[0] == "const" else "?"))
     ctx.ob("REFSUBST", "%s|missing-feature-is-star" % P_REW, ok, _loc(crate, p),
            "a reference to a feature the input does not have expands to \"*\" (%s)" % why if ok else
            "a `$n` reference beyond the input is not expanded to \"*\" (%s)" % why)
